@@ -93,6 +93,7 @@ class Ctx:
         return None                      # "If the variable with given name is not provided, it is assumed to be null"
 
     def function(self, name):
+        name = fn_key(name)
         c = self
         while c is not None:
             if name in c.funcs:
@@ -106,6 +107,39 @@ def norm(name):
     if not name.startswith('$'):
         name = '$' + name
     return '$1' if name == '$' else name
+
+
+def fn_key(name):
+    """function names: "regardless of convention used, all trailing underscores are stripped from the names" """
+    return name.rstrip('_')
+
+
+def camel(name):
+    out, i = [], 0
+    while i < len(name):
+        if i > 0 and name[i] == '_' and i + 1 < len(name) and (name[i + 1].isalnum() or name[i + 1] == '_'):
+            out.append(name[i + 1].upper())
+            i += 2
+        else:
+            out.append(name[i])
+            i += 1
+    return ''.join(out)
+
+
+def fn_key_as_implemented(name):
+    """what the CODE registers a def-ined function under (known finding def-name-translated; used to recognise that
+    finding only, never as the expectation): specs.convert_function_name under CamelCaseConvention"""
+    if not name:
+        return name
+    name = name.rstrip('_')
+    if not name:
+        raise IndexError('string index out of range')
+    if not name[0].isalpha():
+        finish = name.find(name[0], 1)
+        if finish <= 1:
+            return name
+        return name[:finish + 1] + camel(name[finish + 1:])
+    return camel(name)
 
 
 def is_iterable(v):
@@ -153,9 +187,10 @@ BUILTINS = METHODS | FUNCTIONS
 
 
 class Interp:
-    def __init__(self, max_steps=200000):
+    def __init__(self, max_steps=200000, def_as_implemented=False):
         self.steps = 0
         self.max_steps = max_steps
+        self.def_key = fn_key_as_implemented if def_as_implemented else fn_key
 
     # ------------------------------------------------------------ entry
     def run(self, doc, e):
@@ -219,9 +254,9 @@ class Interp:
             recv = self.ev(e[1], c)
             if e[4]:
                 raise OOD('keyword arguments of a method')
-            if e[2] not in METHODS:
+            if fn_key(e[2]) not in METHODS:
                 raise NoMethodRegisteredException(e[2])
-            return self.method(e[2], recv, e[3], c, NoMatchingMethodException)
+            return self.method(fn_key(e[2]), recv, e[3], c, NoMatchingMethodException)
         raise OOD('unknown node %r' % (t,))
 
     def apply(self, body, defining, args, kwargs=None):
@@ -379,6 +414,7 @@ class Interp:
             vals = [data(self.ev(a, c)) for a in args]
             kvals = [data(self.ev(v, c)) for _, v in kw]
             return self.apply(body, defining, vals, dict(zip(names, kvals)))
+        f = fn_key(f)
         if f not in FUNCTIONS:
             raise NoFunctionRegisteredException(f)
         if f == 'let':
@@ -405,7 +441,9 @@ class Interp:
                 raise OOD('def name')
             if not isinstance(name, str):
                 raise NoMatchingFunctionException('def')
-            return Ctx(c, None, {name: args[1]})
+            if fn_key(name) in BUILTINS:
+                raise OOD('def of a builtin name')
+            return Ctx(c, None, {self.def_key(name): args[1]})
         if f == 'list':
             if kw:
                 raise OOD('list with keywords')
@@ -649,10 +687,10 @@ def _named(name):
     return cls(name)
 
 
-def run(doc, e, max_steps=200000):
+def run(doc, e, max_steps=200000, def_as_implemented=False):
     """-> ('ok', finalised) | ('ctx',) | ('err', class name) | ('ood', why)"""
     try:
-        r = Interp(max_steps).run(doc, e)
+        r = Interp(max_steps, def_as_implemented).run(doc, e)
         if r[0] == 'ctx':
             return ('ctx',)
         return ('ok', r[1])
